@@ -1,0 +1,55 @@
+//go:build verif
+
+package server
+
+import "sort"
+
+// Accessors for the C10 (release on every termination path) correspondence harness.
+// Compiled only with -tags verif.
+
+// VerifC10Session is one live session: run id, names in its proxy table, quota counter, number of
+// pooled work connections.
+type VerifC10Session struct {
+	RunID     string
+	Proxies   []string
+	PortsUsed int
+	Pool      int
+}
+
+// VerifC10Sessions returns the session table sorted by run id.
+func (svr *Service) VerifC10Sessions() []VerifC10Session {
+	cm := svr.ctlManager
+	cm.mu.RLock()
+	ctls := make(map[string]*Control, len(cm.ctlsByRunID))
+	for id, ctl := range cm.ctlsByRunID {
+		ctls[id] = ctl
+	}
+	cm.mu.RUnlock()
+	out := make([]VerifC10Session, 0, len(ctls))
+	for id, ctl := range ctls {
+		ctl.mu.RLock()
+		ps := make([]string, 0, len(ctl.proxies))
+		for n := range ctl.proxies {
+			ps = append(ps, n)
+		}
+		used := ctl.portsUsedNum
+		ctl.mu.RUnlock()
+		sort.Strings(ps)
+		out = append(out, VerifC10Session{RunID: id, Proxies: ps, PortsUsed: used, Pool: len(ctl.workConnCh)})
+	}
+	sort.Slice(out, func(i, j int) bool { return out[i].RunID < out[j].RunID })
+	return out
+}
+
+// VerifC10Names returns the global proxy name table (sorted).
+func (svr *Service) VerifC10Names() []string { return svr.pxyManager.VerifC10Names() }
+
+// VerifC10Done returns the channel closed when the teardown of the session currently mapped to
+// runID has finished (nil if there is no such session).
+func (svr *Service) VerifC10Done(runID string) <-chan struct{} {
+	ctl, ok := svr.ctlManager.GetByID(runID)
+	if !ok {
+		return nil
+	}
+	return ctl.doneCh
+}
